@@ -15,11 +15,11 @@ func init() { register("INFER-K2", inferK2) }
 func inferK2(r *Report, tier string) {
 	p := r.P
 	type row struct {
-		owner, field, lock      string
-		held, unheld            int
-		wHeld, wUnheld          int
-		unheldSites             []string
-		pkg                     string
+		owner, field, lock string
+		held, unheld       int
+		wHeld, wUnheld     int
+		unheldSites        []string
+		pkg                string
 	}
 	var rows []row
 	for _, pk := range p.Pkgs {
@@ -85,7 +85,9 @@ func inferK2(r *Report, tier string) {
 			}
 		}
 	}
-	sort.Slice(rows, func(i, j int) bool { return rows[i].pkg+rows[i].owner+rows[i].field < rows[j].pkg+rows[j].owner+rows[j].field })
+	sort.Slice(rows, func(i, j int) bool {
+		return rows[i].pkg+rows[i].owner+rows[i].field < rows[j].pkg+rows[j].owner+rows[j].field
+	})
 	for _, rw := range rows {
 		us := map[string]int{}
 		for _, s := range rw.unheldSites {
